@@ -51,7 +51,20 @@ def single(base, coeff):
     return Pt([(sp.Integer(1), lambda j: base, lambda j: coeff)])
 
 
-def body(ck, F, cfg):
+def body(ck, F, cfg, parts=("ops", "eval", "flatten")):
+    if "ops" in parts:
+        operator_rules(ck, F)
+    if "eval" in parts:
+        eval_rules(ck, F)
+    if "flatten" in parts:
+        # R15.3 flattening consumes all terms (shared with C01/C02)
+        flatten.check(ck, F, "prover", "R15.3")
+        flatten.check(ck, F, "verifier", "R15.3")
+    if "eval" in parts:
+        ck.floor("eval arms", len([o for o in ck.obligations if o[1].startswith("eval:")]), 7)
+
+
+def operator_rules(ck, F):
     impls = {
         "From<Variable>": f"<{LC} as std::convert::From<{VAR}>>::from",
         "From<F>": f"<{LC} as std::convert::From<F>>::from",
@@ -114,6 +127,9 @@ def body(ck, F, cfg):
                 have.update(i["items"])
     extra = sorted(p for p in have if p not in impls.values() and not p.endswith("::Output"))
     ck.require(not extra, "R15.1", "no-unlisted-operators", f"operator impls without a reference denotation: {extra}")
+
+
+def eval_rules(ck, F):
     # R15.2 evaluation on the prover
     ev_path = H.P_PRV + "eval"
     fn = F.fn(ev_path)
@@ -161,10 +177,6 @@ def body(ck, F, cfg):
             last = tv.index(ln) if eq(tv.length(), ln + 1) else None
             okc = isinstance(last, Tup) and isinstance(last.items[0], Enum) and last.items[0].variant == var and eq(last.items[0].payload[0].e, c) and eq(last.items[1].e, -1)
         ck.require(okc, "R15.2", f"multiply:constrains-{nm}", f"multiply must constrain {nm} - {var}(new gate) = 0")
-    # R15.3 flattening consumes all terms (shared with C01/C02)
-    flatten.check(ck, F, "prover", "R15.3")
-    flatten.check(ck, F, "verifier", "R15.3")
-    ck.floor("eval arms", len([o for o in ck.obligations if o[1].startswith("eval:")]), 7)
 
 
 def run(tier):
